@@ -3,6 +3,7 @@ package main
 import (
 	"fmt"
 	"net"
+	"strings"
 	"sync"
 	"sync/atomic"
 	"time"
@@ -244,6 +245,11 @@ func c12One(c *Ctx, r *Rand, idx int) {
 		}
 	}
 	if !ok {
+		return
+	}
+	if runErr != nil && strings.Contains(runErr.Error(), "address already in use") {
+		// the port probed by the harness was taken by somebody else before Run bound it: not an observation about gldap
+		c.Count("harness_port_races_skipped", 1)
 		return
 	}
 	fence := nextSeq()
